@@ -135,6 +135,8 @@ void run_typed(const Execution &ex) {
             me->resize(n);
         } else if (op == "ResizeFill") {
             me->resize(n, Val<T>::make(v));
+        } else if (op == "ResizeFillFrom") {
+            me->resize(n, (*me)[(size_t) st.num("i") - 1]);   // the fill value refers into the array that is being resized
         } else if (op == "Write") {
             (*me)[(size_t) st.num("i") - 1] = Val<T>::make(v);
         } else if (op == "CopyConstruct") {
